@@ -1,6 +1,7 @@
 import MJ.Proofs.Fuel
 import MJ.Proofs.FuelMachine
 import MJ.Proofs.FuelProg
+import MJ.Proofs.FuelEdge
 /-!
 # C13 — fuel gives every render a fixed, exact success threshold
 
@@ -625,6 +626,114 @@ theorem second_tracker_breaks_accumulation :
       (runTreeP (Tracker.new (c + 1)) (tree .restore)).tracker.consumed < c := by
   decide
 
+
+/-! ## nested-evaluation edges with the callee's trace as a parameter -/
+
+/-- CONSUMPTION ADDS UP OVER AN EDGE.  Whatever the callees execute (their traces are parameters:
+    empty, one `EmitRaw`, free instructions only, anything) and wherever they are spliced into the
+    edge's own instructions: the edge consumes the cost of its own instructions plus what every
+    callee consumes when rendered on its own, its threshold is that sum + 1 (0 when nothing is
+    charged), and for every `u64` budget outcome and levels are the ones predicted from the parts
+    (`edgeRun`: success with exactly that consumption at or above the threshold, out of fuel with an
+    empty tank below). -/
+theorem edge_consumption_adds_up {callees : List (List String)} {frame s : List String} (h : Splice callees frame s)
+    (B : Nat) (hB : B < u64Bound) :
+    total s = total frame + calleesTotal callees ∧ thr s = edgeThr frame callees ∧
+    ((runFuel B s).status, (runFuel B s).tracker.consumed, (runFuel B s).tracker.remainingFuel) = edgeRun B frame callees := by
+  have ht := splice_total h
+  have hthr : thr s = edgeThr frame callees := by simp [thr, edgeThr, edgeTotal, ht]
+  refine ⟨ht, hthr, ?_⟩
+  have hsum := levels_sum B s
+  obtain ⟨hge, hlt, _⟩ := threshold_exact s B hB
+  by_cases hb : thr s ≤ B
+  · obtain ⟨h1, _, h3⟩ := hge hb
+    have : edgeThr frame callees ≤ B := by omega
+    simp only [edgeRun, this, if_true, edgeTotal, h1, h3, ← ht]
+    have : (runFuel B s).tracker.remainingFuel = B - total s := by omega
+    rw [this]
+  · obtain ⟨h1, _, _⟩ := hlt (by omega)
+    have hr : (runFuel B s).tracker.remainingFuel = 0 := by
+      simpa [remainingFuel, runFuel] using runFrom_oof_remaining (Tracker.new B) s (by simpa [runFuel] using h1)
+    have : ¬ edgeThr frame callees ≤ B := by omega
+    simp only [edgeRun, this, if_false, h1, hr]
+    have : (runFuel B s).tracker.consumed = B := by omega
+    rw [this]
+
+/-- the same for one callee run `m` times (an include in a loop, a macro called twice) -/
+theorem edge_repeated_callee {frame s callee : List String} (m : Nat) (h : Splice (List.replicate m callee) frame s) :
+    total s = total frame + m * total callee := by
+  rw [splice_total h, calleesTotal_replicate]
+
+/-- an include whose callee is a single `EmitRaw` (literal text only), an empty callee, and a
+    callee run three times in a loop -/
+example :
+    Splice [["EmitRaw"]] ["LoadConst", "Include", "EmitRaw"] ["LoadConst", "Include", "EmitRaw", "EmitRaw"] ∧
+    Splice [[]] ["LoadConst", "Include"] ["LoadConst", "Include"] ∧
+    edgeRun 3 ["LoadConst", "Include"] [["EmitRaw"]] = (.outOfFuel, 3, 0) ∧
+    edgeRun 4 ["LoadConst", "Include"] [["EmitRaw"]] = (.done, 3, 1) := by
+  refine ⟨?_, ?_, by decide, by decide⟩
+  · exact Splice.own _ (Splice.own _ (Splice.callee ["EmitRaw"] (Splice.own _ Splice.nil)))
+  · exact Splice.callee [] (Splice.own _ (Splice.own _ Splice.nil))
+
+/-- … and why every executed instruction has to go through the charge: an engine that does the
+    work of a callee outside the metered loop (charged trace = the edge's own instructions only)
+    accepts budgets below the threshold of the work that was really done and reports less than it
+    consumed; the gap is exactly what the callees cost. -/
+theorem uncharged_work_breaks_accumulation {callees : List (List String)} {frame s : List String} (h : Splice callees frame s)
+    (hc : calleesTotal callees ≠ 0) (B : Nat) (hB : thr frame ≤ B) :
+    (unchargedRun B frame).status = .done ∧ (unchargedRun B frame).tracker.consumed + calleesTotal callees = total s ∧
+    thr frame < thr s := by
+  have ht := splice_total h
+  obtain ⟨_, h2, h3⟩ := deterministic frame B B hB hB
+  refine ⟨?_, by simp only [unchargedRun, h3, ht], ?_⟩
+  · by_cases h0 : total frame = 0
+    · simp [unchargedRun, runFuel, runFrom_free _ frame h0]
+    · simp only [thr, h0, if_false] at hB
+      simp [unchargedRun, runFuel, runFrom_enough (Tracker.new B) frame (by simp [Tracker.new]; omega)]
+  · simp only [thr]
+    split <;> split <;> omega
+
+example : calleesTotal [["EmitRaw"]] ≠ 0 ∧ thr ["LoadConst", "Include"] ≤ 3 := by decide
+
+
+/-! ## all work is done by instruction arms of the one dispatch loop -/
+
+/-- classification of a row `(file, function, instruction arm, kind)` of the regenerated table of
+    every place in `minijinja/src` (outside the compiler, which builds instructions, and `vm/fuel.rs`,
+    which prices them) that writes to the render's `Output`, fetches an instruction, starts an
+    evaluation of instructions, or looks at an `Instruction` outside the dispatch loop -/
+def outputSiteOk : String × String × String × String → Bool
+  | (file, fn, arm, kind) =>
+    if ["write:write_str", "write:write!", "write:write_escaped", "write:write_fmt", "write:env.format", "write:target()"].contains kind then
+      -- output is written by the arms of EmitRaw and Emit only
+      file == "vm/mod.rs" && fn == "fn eval_impl" && (arm == "EmitRaw" || arm == "Emit")
+    else if kind == "fetch" then
+      -- the one fetch at the head of the loop (in front of the charge); `BlockStack::instructions`
+      -- picks an instruction LIST of the block stack
+      (file == "vm/mod.rs" && fn == "fn eval_impl" && arm == "-") || (file == "vm/state.rs" && fn == "fn instructions")
+    else if kind == "eval-call:eval_impl" then file == "vm/mod.rs" && fn == "fn do_eval"
+    else if kind == "eval-call:do_eval" then file == "vm/mod.rs" && (fn == "fn eval_macro" || fn == "fn eval_state")
+    else if kind == "eval-call:eval_state" then
+      file == "vm/mod.rs" && ["fn eval", "fn call_block", "fn perform_include", "fn perform_super"].contains fn
+    else false  -- in particular: any pattern on an `Instruction` outside the dispatch loop
+
+/-- OUTPUT SITES ARE INSTRUCTION ARMS.  In the sources as they are now every write to the render's
+    output sits in an arm of the dispatch `match instr` of `eval_impl` (after the charge of that
+    instruction), instructions are fetched at one place (the head of that loop), and the nested
+    evaluations of `perform_include` / `perform_super` / `call_block` / `eval_macro` / `Executor::eval`
+    only go through `eval_state → do_eval → eval_impl`: none of them writes output, fetches or
+    inspects an instruction itself.  This is the hypothesis under which the executed trace of an edge
+    is a `Splice` of the callee traces into the edge's own instructions (`edge_consumption_adds_up`). -/
+theorem output_sites_are_instruction_arms :
+    MJ.Gen.outputSites.all outputSiteOk = true ∧
+    (MJ.Gen.outputSites.filter (fun r => r.1 == "vm/mod.rs" && r.2.2.2 == "fetch")).length = 1 ∧
+    MJ.Gen.outputSites.contains ("vm/mod.rs", "fn eval_impl", "EmitRaw", "write:write_str") = true ∧
+    MJ.Gen.outputSites.contains ("vm/mod.rs", "fn perform_include", "-", "eval-call:eval_state") = true := by decide
+
+/-- the classification is not vacuous: a fast path that writes in `perform_include` is refused -/
+example : outputSiteOk ("vm/mod.rs", "fn perform_include", "-", "write:write_str") = false
+    ∧ outputSiteOk ("template.rs", "fn _render", "-", "instruction-pattern") = false := by decide
+
 /-! ## structured programs -/
 
 /-- the cost computed on the program — a function of the context — is the total of the trace the
@@ -702,6 +811,59 @@ theorem error_threshold_exact (c : Ctx) (p : P) (hfail : (exec c [] p).2 = false
     obtain ⟨h1, h2, h3⟩ := hge h
     obtain ⟨h1', h2', h3'⟩ := hge' h'
     exact ⟨h1.trans h1'.symm, h2.trans h2'.symm, h3.trans h3'.symm⟩
+
+
+/-- CONDITIONALS, FOR-ELSE, LOOP FILTERS.  A conditional costs what the side selected by the data
+    costs (the test and the `JumpIfFalse` in front of it are ordinary instructions of the enclosing
+    sequence), so `prog_threshold_exact` covers programs with `{% if %}`/`{% elif %}`/`{% else %}`, loops
+    with an else part and loops with a filter: their cost is still a function of the context. -/
+theorem branch_cost_selects (c : Ctx) (path : List Nat) (id : Nat) (a b : P) :
+    cost c path (.branch id a b) = (if c.cond id path then cost c path a else cost c path b) ∧
+    exec c path (.branch id a b) = (if c.cond id path then exec c path a else exec c path b) := by
+  simp [cost, exec]
+
+/-- `{% for %}…{% else %}…{% endfor %}`: the else part (first side of the conditional that follows the
+    loop, taken when the loop did not iterate) is charged exactly when the trip count is 0; otherwise
+    the cost is that of the loop (with the `PushDidNotIterate`, `PopLoopFrame`, `JumpIfFalse` that
+    follow it as `after`) -/
+theorem for_else_cost (c : Ctx) (lid cid : Nat) (head iter : List String) (body : P) (back exit : List String) (after : List String) (els : P)
+    (hc : c.cond cid [] = decide (c.count lid [] = 0)) (hl : (cost c [] (.loop lid head iter body back exit)).2 = true) :
+    cost c [] (.seq (.loop lid head iter body back exit) (.seq (afterP after) (.branch cid els .skip)))
+      = if c.count lid [] = 0 then ((cost c [] (.loop lid head iter body back exit)).1 + (total after + (cost c [] els).1), (cost c [] els).2)
+        else ((cost c [] (.loop lid head iter body back exit)).1 + (total after + 0), true) := by
+  have ha : cost c [] (afterP after) = (total after, true) := afterP_cost c [] after
+  have hseq : ∀ (a b : P), cost c [] (.seq a b) = chainN [cost c [] a, cost c [] b] := fun a b => by simp only [cost]
+  have hbr : cost c [] (.branch cid els .skip) = if c.count lid [] = 0 then cost c [] els else (0, true) := by
+    simp only [cost, hc, decide_eq_true_eq]
+  generalize hk : cost c [] (.loop lid head iter body back exit) = k at hl ⊢
+  obtain ⟨k1, k2⟩ := k
+  simp only at hl
+  subst hl
+  rw [hseq, hseq, hk, ha, hbr]
+  by_cases h0 : c.count lid [] = 0
+  · generalize cost c [] els = e
+    obtain ⟨e1, e2⟩ := e
+    cases e2 <;> simp [chainN, h0]
+  · simp [chainN, h0]
+
+/-- an if/else inside a loop over three items whose test holds for the items 0 and 2, a loop with
+    an else part that did not iterate, and a fallible `Rem` -/
+private def demoCtx2 : Ctx :=
+  { count := fun id _ => if id = 0 then 3 else 0, fails := fun _ _ => false,
+    cond := fun id path => if id = 0 then path == [0] || path == [2] else true }
+private def demoProg2 : P :=
+  .seq (.loop 0 ["Lookup", "PushLoop"] ["Iterate", "StoreLocal"]
+      (.seq (.instr "Lookup") (.seq (.instr "JumpIfFalse") (.branch 0 (.seq (.instr "EmitRaw") (.instr "Jump")) (.mayFail "Rem" 0))))
+      ["Jump"] ["Iterate", "PopLoopFrame"])
+    (.seq (.loop 1 ["Lookup", "PushLoop"] ["Iterate", "StoreLocal"] (.instr "Emit") ["Jump"] ["Iterate"])
+      (.seq (afterP ["PushDidNotIterate", "PopLoopFrame", "JumpIfFalse"]) (.branch 1 (.instr "EmitRaw") .skip)))
+
+example : (exec demoCtx2 [] demoProg2).2 = true
+    ∧ (exec demoCtx2 [] demoProg2).1 = ["Lookup", "PushLoop", "Iterate", "StoreLocal", "Lookup", "JumpIfFalse", "EmitRaw", "Jump", "Jump",
+        "Iterate", "StoreLocal", "Lookup", "JumpIfFalse", "Rem", "Jump", "Iterate", "StoreLocal", "Lookup", "JumpIfFalse", "EmitRaw", "Jump", "Jump",
+        "Iterate", "PopLoopFrame", "Lookup", "PushLoop", "Iterate", "PushDidNotIterate", "PopLoopFrame", "JumpIfFalse", "EmitRaw"]
+    ∧ (cost demoCtx2 [] demoProg2).1 = total (exec demoCtx2 [] demoProg2).1 := by
+  decide
 
 /-- two nested loops: the inner trip count is the outer index (a triangle), the innermost
     instruction fails in iteration (2, 1) -/
